@@ -3,6 +3,7 @@ import copy
 import os
 
 from harness import tlc
+from checks import _pg
 
 META = {
     "property_id": "C18",
@@ -65,12 +66,7 @@ def run(ctx):
     zero = [a for a in ACTIONS if a not in cov or cov[a][1] == 0]
     if zero:
         raise tlc.MachineryError("actions never taken in the exhaustive model: %s" % zero)
-    for w in WITNESSES:
-        wcfg = tlc.write_cfg(os.path.join(ctx.scratch, w + ".cfg"), constants=consts, invariants=[w], deadlock=False)
-        wres = tlc.check_model("Paging", wcfg, ctx.scratch, timeout=600)
-        if wres.invariant != w:
-            raise tlc.MachineryError("vacuity witness %s not reachable" % w)
-    ctx.note("vacuity_witnesses_reached", len(WITNESSES))
+    _pg.reach_witnesses(ctx, "Paging", consts, WITNESSES)
 
     # ---- spec -> code: replay walks covering every edge of the exhaustive graph
     walks = rp.cover_walks(nodes, edges, init)
@@ -199,8 +195,6 @@ def replay(ctx, obj):
     if acts is None:
         acts = [{"name": e["e"], "arg": e.get("arg", 0)} if e["e"] != "Anomaly" else
                 {"name": e["during"]["e"], "arg": e["during"].get("arg", 0)} for e in obj["events"]]
-    elif obj.get("divergence") and isinstance(obj["divergence"]["action"], dict):
-        acts = acts + [obj["divergence"]["action"]]
     print("layout", obj["layout"])
     for a in acts:
         out = h.do(a)
